@@ -141,7 +141,7 @@ pub open spec fn len_prefix_wf(d: Decoder) -> bool {
 pub open spec fn max_in_force(ctx: DecodingContext) -> int { if ctx.maximum_packet_size == 0 { 268435455 } else { ctx.maximum_packet_size as int } }
 
 impl Decoder {
-//@fn gneiss-mqtt/src/decode.rs Decoder::reset props=C03
+//@fn gneiss-mqtt/src/decode.rs Decoder::reset props=C03,C11
     ensures final(self).state == DecoderState::ReadPacketType, final(self).scratch@.len() == 0, final(self).first_byte is None, final(self).remaining_length is None,
 //@end
 
@@ -153,7 +153,7 @@ impl Decoder {
             && final(self).first_byte is None && final(self).remaining_length is None,
 //@end
 
-//@fn gneiss-mqtt/src/decode.rs Decoder::reset_for_new_connection props=C03
+//@fn gneiss-mqtt/src/decode.rs Decoder::reset_for_new_connection props=C03,C11
     ensures final(self).state == DecoderState::ReadPacketType, final(self).scratch@.len() == 0, final(self).first_byte is None, final(self).remaining_length is None,
 //@end
 
